@@ -1175,7 +1175,9 @@ spfmx(const char *domain, const char *token)
 		unsigned short s;
 
 		FOREACH_STRUCT_IPS(cur, s, mx) {
-			if (ip6_matchnet(&xmitstat.sremoteip, cur->addr + s, ip6l)) {
+			/* IPv4 addresses of the MX never match an IPv6 client, like in spfa() */
+			if (!IN6_IS_ADDR_V4MAPPED(cur->addr + s) &&
+					ip6_matchnet(&xmitstat.sremoteip, cur->addr + s, ip6l)) {
 				freeips(mx);
 				return SPF_PASS;
 			}
